@@ -269,9 +269,11 @@ var specs = []mechSpec{
 		{"expressions": []any{map[string]any{"expression": `Payload.allow == false && ["10.1.2.3"].all(ip, ip in networks(["10.0.0.0/8", "192.168.0.0/16"]))`}}},
 		{"forward_response_headers_to_upstream": []any{"X-Other"}}, {"cache_ttl": "9s"}, {"values": map[string]any{"a": "uno"}}, {"values": map[string]any{"c": "three"}}}},
 	{"contextualizer", "ctx", []map[string]any{
-		{"forward_headers": []any{"X-Fwd2"}}, {"payload": "p-{{ .Subject.ID }}"}, {"cache_ttl": "9s"}, {"continue_pipeline_on_error": true},
+		{"forward_headers": []any{"X-Fwd2"}}, {"forward_headers": []any{"X-Fwd", "X-Fwd2"}}, {"forward_headers": []any{"X-Fwd X-Fwd2"}}, {"payload": "p-{{ .Subject.ID }}"}, {"cache_ttl": "9s"}, {"continue_pipeline_on_error": true},
 		{"values": map[string]any{"a": "uno"}}, {"forward_cookies": []any{"sess"}}}},
-	{"finalizer", "header", []map[string]any{{"headers": map[string]any{"X-Other": "v"}}, {"headers": map[string]any{"X-User": "fixed"}}}},
+	{"finalizer", "header", []map[string]any{{"headers": map[string]any{"X-Other": "v"}}, {"headers": map[string]any{"X-User": "fixed"}},
+		// different overrides which read alike once printed
+		{"headers": map[string]any{"X-Tenant": "a", "X-Zone": "b"}}, {"headers": map[string]any{"X-Tenant": "a X-Zone:b"}}}},
 	{"finalizer", "cookie", []map[string]any{{"cookies": map[string]any{"other": "v"}}}},
 	{"finalizer", "jwtfin", []map[string]any{{"claims": `{"role": "variant"}`}, {"ttl": "1m"}, {"claims": `{"role": "v2"}`, "ttl": "2m"}}},
 	{"finalizer", "cc", []map[string]any{{"scopes": []any{"x"}}, {"cache_ttl": "9s"}, {"header": map[string]any{"name": "X-Tok", "scheme": "Tok"}}}},
